@@ -102,10 +102,10 @@ func (f *Field) ElementFromString(val string) (ff.Element, error) {
 	match := regexp.MustCompile(`(-)?([0-9]+)`).FindStringSubmatch(val)
 
 	// Check that the pattern matches the full string
-	if len(match[0]) != len(val) {
+	if match == nil || len(match[0]) != len(val) {
 		return nil, errors.New(
 			op, errors.Parsing,
-			"Pattern match %q is not the full input string %q", match[0], val,
+			"Pattern match %q is not the full input string %q", match, val,
 		)
 	}
 
